@@ -11,7 +11,7 @@ use crate::engine::guarded;
 use crate::model::doc::*;
 use crate::model::layout::{self, NASTY_FILLERS};
 use crate::model::seeds;
-use crate::report::{finish, fnv, Case, Stats, Tier, Violation, VERIF_DIR};
+use crate::report::{finish, fnv, out_dir, Case, Stats, Tier, Violation, VERIF_DIR};
 use aidl_parser::Parser;
 use rayon::prelude::*;
 use serde_json::json;
@@ -297,7 +297,10 @@ pub fn check_case(case: &Case) -> CheckResult {
 }
 
 fn inflight_dir() -> String {
-    format!("{VERIF_DIR}/target/c01-inflight")
+    match std::env::var("VERIF_OUT_DIR") {
+        Ok(d) => format!("{d}/c01-inflight"),
+        Err(_) => format!("{VERIF_DIR}/target/c01-inflight"),
+    }
 }
 
 /// child: explore everything; exit code 0 / 1 / 2 as every check, 3 = a case exceeded its limit
@@ -481,7 +484,8 @@ pub fn run(tier: Tier, seed: u64) -> i32 {
             }
         }
     }
-    let _ = std::fs::create_dir_all(format!("{VERIF_DIR}/replays"));
+    let out = out_dir();
+    let _ = std::fs::create_dir_all(format!("{out}/replays"));
     let mut paths = Vec::new();
     for (sp, label, fl, v) in &found {
         let case = Case {
@@ -493,7 +497,7 @@ pub fn run(tier: Tier, seed: u64) -> i32 {
         };
         let body = json!({"property": PROP, "message": v, "case": case});
         let text = serde_json::to_string_pretty(&body).unwrap();
-        let path = format!("{VERIF_DIR}/replays/{}-{:016x}.json", PROP, fnv(&text));
+        let path = format!("{out}/replays/{}-{:016x}.json", PROP, fnv(&text));
         let _ = std::fs::write(&path, &text);
         println!("VIOLATION property={PROP} replay={path}");
         println!("  {label} :: {v}");
@@ -519,8 +523,8 @@ pub fn run(tier: Tier, seed: u64) -> i32 {
         "wall_s": start.elapsed().as_secs_f64(),
         "violations": found.len(),
     });
-    let _ = std::fs::create_dir_all(format!("{VERIF_DIR}/evidence"));
-    let _ = std::fs::write(format!("{VERIF_DIR}/evidence/{PROP}.json"), serde_json::to_string_pretty(&ev).unwrap());
+    let _ = std::fs::create_dir_all(format!("{out}/evidence"));
+    let _ = std::fs::write(format!("{out}/evidence/{PROP}.json"), serde_json::to_string_pretty(&ev).unwrap());
     if found.is_empty() {
         eprintln!("MACHINERY: the child ended abnormally but no in-flight case reproduces the failure alone");
         2
